@@ -639,9 +639,146 @@ impl Family for ExoticTargets {
     }
 }
 
+// ------------------------------------------------------------------------------------------------------------
+// "Every error it returns can be rendered as a message": the inputs of the other families reach only some of the
+// error shapes (since the reservation is bounded by what is left of the input, a decoder can no longer be made to
+// fail an allocation with 90 bytes). Here every constructible shape is rendered - built directly over a grid of
+// field values, with and without a source, and obtained from the real API where it can produce one.
+
+pub struct EveryErrorRenders;
+const ER_SIZES: [usize; 5] = [0, 1, 255, 1 << 32, usize::MAX];
+const ER_VALUES: [i128; 5] = [0, -1, i64::MAX as i128 + 1, i128::MIN, i128::MAX];
+impl EveryErrorRenders {
+    fn build(idx: u64) -> (String, slice_codec::Error) {
+        use slice_codec::{Error, ErrorKind, InvalidDataErrorKind};
+        let shape = idx % 9;
+        let a = ER_SIZES[((idx / 9) % 5) as usize];
+        let b = ER_SIZES[((idx / 45) % 5) as usize];
+        let v = ER_VALUES[((idx / 9) % 5) as usize];
+        let w = ER_VALUES[((idx / 45) % 5) as usize];
+        let source = (idx / 225) % 3;
+        let try_reserve_error = || Vec::<u8>::new().try_reserve(usize::MAX).unwrap_err();
+        let (what, kind): (String, ErrorKind) = match shape {
+            0 => (format!("UnexpectedEob({a}, {b})"), ErrorKind::UnexpectedEob { requested: a, remaining: b }),
+            1 => (format!("InvalidReservation(len {a}, {b}..{a})"), ErrorKind::InvalidReservation { buffer_len: a, reserved_range: b..a }),
+            2 => ("AllocationError".into(), ErrorKind::AllocationError(try_reserve_error())),
+            3 => (format!("AllocationLimitReached({a}, {b})"), ErrorKind::AllocationLimitReached { requested: a, remaining: b }),
+            4 => (format!("IllegalValue(Some({v}))"), InvalidDataErrorKind::IllegalValue { desc: "a description", value: Some(v) }.into()),
+            5 => ("IllegalValue(None)".into(), InvalidDataErrorKind::IllegalValue { desc: "", value: None }.into()),
+            6 => (format!("OutOfRange({v}, {w})"), InvalidDataErrorKind::OutOfRange { value: v, min: w, max: v, typename: "varint62" }.into()),
+            7 => ("InvalidString".into(), InvalidDataErrorKind::InvalidString(String::from_utf8(vec![b'a', 0xFF, 0xFE, (a & 0x7F) as u8]).unwrap_err()).into()),
+            _ => ("from TryFromIntError".into(), {
+                let e: Error = u8::try_from(a.max(256)).unwrap_err().into();
+                return (format!("from TryFromIntError, source {source}"), if source == 0 { e } else { Error::new_with_source(InvalidDataErrorKind::IllegalValue { desc: "wrapped", value: None }.into(), e) });
+            }),
+        };
+        let e = match source {
+            0 => Error::new(kind),
+            1 => Error::new_with_source(kind, std::fmt::Error),
+            // an error of this crate that has a source itself, as the source
+            _ => Error::new_with_source(kind, Error::new_with_source(ErrorKind::AllocationError(try_reserve_error()), std::io::Error::other("the innermost cause\nwith two lines"))),
+        };
+        (format!("{what}, source {source}"), e)
+    }
+}
+impl Family for EveryErrorRenders {
+    fn name(&self) -> String {
+        "every-error-renders/9 error shapes (every ErrorKind and InvalidDataErrorKind variant, an integer conversion) x 5 x 5 field values (0, 1, 255, 2^32, usize::MAX; 0, -1, 2^63, i128::MIN, i128::MAX) x {no source, a source, a source that has a source} built directly, and 6 errors obtained from the real API (huge reservations, foreign reservations, reads past the end, invalid UTF-8): Display, Debug and source() end normally and the message is not empty".into()
+    }
+    fn len(&self) -> u64 {
+        9 * 25 * 3 + 6
+    }
+    fn describe(&self, idx: u64) -> Value {
+        if idx < 675 {
+            json!({"error": Self::build(idx).0})
+        } else {
+            json!({"error_from_the_api": idx - 675})
+        }
+    }
+    fn run(&self, idx: u64) -> CaseOut {
+        use slice_codec::buffer::slice::{SliceInputSource, SliceOutputTarget};
+        use slice_codec::buffer::vec::VecOutputTarget;
+        use slice_codec::buffer::{InputSource, OutputTarget};
+        let mut out = CaseOut::new(hash_str(&format!("c11er{idx}")));
+        out.validated = 1;
+        out.nontrivial = true;
+        let r = guarded(|| {
+            let (what, e): (String, slice_codec::Error) = if idx < 675 {
+                Self::build(idx)
+            } else {
+                match idx - 675 {
+                    0 => {
+                        let mut v = vec![1u8, 2, 3];
+                        let mut t = VecOutputTarget::from(&mut v);
+                        ("reserve_space(usize::MAX) on a vector".into(), t.reserve_space(usize::MAX).err().expect("must fail"))
+                    }
+                    1 => {
+                        let mut buf = [0u8; 4];
+                        let mut t = SliceOutputTarget::from(&mut buf[..]);
+                        ("reserve_space(usize::MAX) on a slice".into(), t.reserve_space(usize::MAX).err().expect("must fail"))
+                    }
+                    2 => {
+                        // a reservation made on a longer target, used on a shorter one
+                        let mut long = [0u8; 16];
+                        let mut tl = SliceOutputTarget::from(&mut long[..]);
+                        tl.write_bytes_exact(&[0; 8]).unwrap();
+                        let mut res = tl.reserve_space(8).unwrap();
+                        let mut short = [0u8; 4];
+                        let mut ts = SliceOutputTarget::from(&mut short[..]);
+                        ("a foreign reservation on a slice".into(), ts.write_bytes_into_reserved_exact(&mut res, &[1, 2]).err().expect("must fail"))
+                    }
+                    3 => {
+                        let mut long = vec![0u8; 8];
+                        let mut res = {
+                            let mut tl = VecOutputTarget::from(&mut long);
+                            tl.reserve_space(8).unwrap()
+                        };
+                        let mut short = vec![];
+                        let mut ts = VecOutputTarget::from(&mut short);
+                        ("a foreign reservation on a vector".into(), ts.write_bytes_into_reserved_exact(&mut res, &[1, 2]).err().expect("must fail"))
+                    }
+                    4 => {
+                        let data = [1u8, 2];
+                        let mut src = SliceInputSource::from(&data[..]);
+                        let mut dest = [0u8; 9];
+                        ("a read past the end".into(), src.read_bytes_into_exact(&mut dest).err().expect("must fail"))
+                    }
+                    _ => {
+                        let data = [0x0Cu8, b'a', 0xFF, 0xFE];
+                        let mut d = slice_codec::decoder::Decoder::from(&data[..]);
+                        ("a string that is not UTF-8".into(), d.decode::<String>().err().expect("must fail"))
+                    }
+                }
+            };
+            let shown = e.to_string();
+            let debug = format!("{e:?}");
+            let mut depth = 0;
+            let mut cur: Option<&(dyn std::error::Error + 'static)> = std::error::Error::source(&e);
+            while let Some(c) = cur {
+                let _ = c.to_string();
+                depth += 1;
+                cur = c.source();
+            }
+            let _ = format!("{}", e.kind());
+            (what, shown, debug, depth)
+        });
+        match r {
+            Err((loc, msg)) => out.violate(format!("c11/every-error-renders/panic@{loc}"), format!("rendering panicked at {loc}: {msg}; case {:?}", self.describe(idx))),
+            Ok((what, shown, debug, depth)) => {
+                if shown.trim().is_empty() || debug.trim().is_empty() {
+                    out.violate("c11/every-error-renders/empty-message", format!("{what}: Display gives {shown:?}, Debug gives {debug:?}"));
+                }
+                out.class = format!("{}:{}lines:sources{depth}", what.split(|c| c == '(' || c == ',').next().unwrap_or(""), shown.lines().count().min(4));
+            }
+        }
+        out
+    }
+}
+
 pub fn families(tier: &str) -> Vec<Box<dyn Family>> {
     let quick = tier == "quick";
     vec![
+        Box::new(EveryErrorRenders),
         Box::new(TaggedFields::new()),
         Box::new(ExoticTargets),
         Box::new(AnnouncedSizes::new()),
